@@ -34,6 +34,8 @@ type jField struct {
 	Ty   int    `json:"ty"`
 	// Foreign: the field is declared in another package than the one being generated (an unexported one is then invisible)
 	Foreign bool `json:"foreign,omitempty"`
+	// Embedded: an embedded field (its members are promoted); read by the specification judges only
+	Embedded bool `json:"embedded,omitempty"`
 }
 
 type jMethodInfo struct {
@@ -611,7 +613,7 @@ func ExtractFacts(srcPath, dstPath, rel string) (*Facts, error) {
 			j.IsStruct = true
 			for i := 0; i < st.NumFields(); i++ {
 				fl := st.Field(i)
-				j.Fields = append(j.Fields, jField{Name: fl.Name(), Ty: u.id(fl.Type()), Foreign: fl.Pkg() != nil && fl.Pkg().Path() != pkg.PkgPath})
+				j.Fields = append(j.Fields, jField{Name: fl.Name(), Ty: u.id(fl.Type()), Foreign: fl.Pkg() != nil && fl.Pkg().Path() != pkg.PkgPath, Embedded: fl.Embedded()})
 			}
 		}
 		if b, ok := under.(*types.Basic); ok && b.Kind() == types.Invalid {
